@@ -103,6 +103,14 @@ def elem_weights(A, t):
 
 # ------------------------------------------------------------------ logging / call-programmed right-hand side
 
+class EvaluationBudgetExceeded(RuntimeError):
+    """raised by a spied right-hand side after EVAL_BUDGET evaluations in one solve (the largest count on any
+    enumerated case is below 6 000; the step-size control of a pair of the stated orders cannot need 50x that)"""
+
+
+EVAL_BUDGET = 300000
+
+
 class Spy:
     """builds a plain python function f(t, y, *params) (solve_ivp only accepts functions and methods) which logs
     every call and answers either with `answer(k, t, y)` (call-programmed) or with `rhs(t, y, *params)`"""
@@ -119,6 +127,9 @@ class Spy:
                 yc = tuple(v.detach().clone() for v in y)
             else:
                 yc = y.detach().clone()
+            if k >= EVAL_BUDGET:
+                raise EvaluationBudgetExceeded("more than %d evaluations of the right-hand side in one run: the step "
+                                               "size does not follow the requested tolerances" % EVAL_BUDGET)
             self.log.append((float(t), yc))
             self.grad_mode.append(torch.is_grad_enabled())
             if self.answer is not None:
